@@ -199,12 +199,24 @@ type vmConn struct {
 	failAt int
 	failed bool
 	sink   bytes.Buffer
+	// the peer has closed the connection: as with TCP, the first write afterwards is still taken (the reset comes back later),
+	// every further one fails
+	cut         bool
+	cutAccepted bool
 }
 
 func (c *vmConn) Write(b []byte) (int, error) {
 	c.mu.Lock()
 	defer c.mu.Unlock()
 	c.writes++
+	if c.cut {
+		if !c.cutAccepted {
+			c.cutAccepted = true
+			return len(b), nil
+		}
+		c.failed = true
+		return 0, errors.New("connection reset by peer (scripted)")
+	}
 	if c.failAt > 0 && c.writes >= c.failAt {
 		c.failed = true
 		return 0, errors.New("broken pipe (scripted)")
@@ -267,6 +279,50 @@ func TestVerifC12MtcpClient(t *testing.T) {
 			}
 			// what reached the other side must be whole frames of the bundles sent successfully
 			b, _ := json.Marshal(vhRec{"t": "client", "payload": payload, "fail_at": failAt, "sends": sends})
+			f.Write(append(b, '\n'))
+			nrec++
+		}
+		// the peer closes the connection after k successful sends (nothing is written in between): the very next send has to fail
+		for cutAfter := 0; cutAfter <= 2; cutAfter++ {
+			fc := &vmConn{}
+			cl := &MTCPClient{conn: fc, peer: bpv7.MustNewEndpointID("dtn://peer/"), reportChan: make(chan cla.ConvergenceStatus, 64), address: "fake"}
+			type sr struct {
+				Ok     bool `json:"ok"`
+				Broken bool `json:"broken"`
+				Gone   int  `json:"gone"`
+			}
+			var sends []sr
+			for i := 0; i <= cutAfter; i++ {
+				if i == cutAfter {
+					fc.mu.Lock()
+					fc.cut = true
+					fc.mu.Unlock()
+				}
+				done := make(chan error, 1)
+				go func() { done <- cl.Send(vmBundle(fmt.Sprintf("k%d", i), payload)) }()
+				var err error
+				select {
+				case err = <-done:
+				case <-time.After(10 * time.Second):
+					vhViol("mtcp/client-hang", "Send does not return on a connection the peer has closed", vhRec{"payload": payload, "cut_after": cutAfter})
+					vhDone()
+					return
+				}
+				gone := 0
+			drain2:
+				for {
+					select {
+					case cs := <-cl.reportChan:
+						if cs.MessageType == cla.PeerDisappeared {
+							gone++
+						}
+					default:
+						break drain2
+					}
+				}
+				sends = append(sends, sr{Ok: err == nil, Broken: i == cutAfter, Gone: gone})
+			}
+			b, _ := json.Marshal(vhRec{"t": "client", "payload": payload, "fail_at": -1 - cutAfter, "sends": sends})
 			f.Write(append(b, '\n'))
 			nrec++
 		}
